@@ -15,6 +15,19 @@
 //	broken        syntactically / type-wise broken user files, empty package, only _test files,
 //	              truncated / garbage / foreign derived.gen.go, undefined arguments
 //	aliasclash    well-typed: imported packages whose names collide with another import's full path
+//	unresolved    type-wise broken user file: an undeclared (misspelt) type in EVERY position of the argument
+//	              type of a derive call — bare, pointer / slice / array / chan element, map KEY, map value,
+//	              func parameter / result, unnamed struct field, named struct field, and nested two deep —
+//	              for every type-directed plugin; goderive must either say which call it cannot generate
+//	              (non-zero exit) or write a derived.gen.go that parses and mentions no "invalid type"
+//	blankfields   structs whose fields are all (or partly) blank `_`, unnamed and named, by value and by pointer
+//	              (F41: the printer used to panic "unindenting more than has been indented")
+//	selfpointer   self-pointing named pointer types `type P *P`, `type Q **Q`, `type R struct{N *R2}; type R2 *R`
+//	              (F42: used to expand the pointee for ever)
+//	nilargs       every type-directed plugin with untyped nil in each argument position and in all positions
+//	              (F43: `func deriveHash(this untyped nil)`); the function-consuming plugins get nil through badargs
+//	              — for these three: never a crash or hang; exit 0 only with a package that type-checks;
+//	              otherwise a message naming the call or type
 //	nonascii      well-typed, supported: type names of 1-3 non-ASCII letters (2-, 3- and 4-byte letters), the
 //	              same type name in two or three imported packages, with helper requests (or user functions)
 //	              that already took prefix, prefix_ and every letter prefix of the name, so that the fresh-name
@@ -71,6 +84,7 @@ type caseT struct {
 	Names   []string `json:"names"`   // a diagnostic should contain one of these (call name, type text)
 	Unsupp  bool     `json:"unsupp"`  // the argument type is outside the plugin's documented set
 	UserBad bool     `json:"userbad"` // the user's own files do not parse / type-check
+	Tag     string   `json:"tag"`     // sub-class used in the violation class id (cause rather than plugin)
 	MustOK  bool     `json:"mustok"`  // well-typed and inside the supported grammar: exit 0, parses, type-checks
 	Files   []string `json:"files"`
 }
@@ -556,6 +570,154 @@ func genAliasClash() {
 		map[string]string{"v2/odd.go": "package strings\n\ntype T struct{ N []int }\n"})
 }
 
+// ---------------------------------------------------------------- family: unresolved
+
+func genUnresolved(prefixes map[string]string) {
+	positions := []struct{ name, typ string }{
+		{"bare", "ID"}, {"pointer", "*ID"}, {"slice", "[]ID"}, {"array", "[3]ID"}, {"chan", "chan ID"},
+		{"map key", "map[ID]int"}, {"map value", "map[string]ID"}, {"map key and value", "map[ID]ID"},
+		{"func parameter", "func(ID) int"}, {"func result", "func(int) ID"},
+		{"unnamed struct field", "struct {\n\tA int\n\tF ID\n}"}, {"pointer to unnamed struct field", "*struct {\n\tF ID\n}"},
+		{"named struct field", "*N"}, {"named map type with the key", "NM"},
+		{"slice of map key", "[]map[ID]int"}, {"pointer to map key", "*map[ID]int"}, {"map value map key", "map[string]map[ID]int"},
+		{"map key, slice value", "map[ID][]string"}, {"pointer to slice", "*[]ID"}, {"slice of slice", "[][]ID"},
+		{"map value slice", "map[string][]ID"}, {"array of map key", "[2]map[ID]bool"}, {"map key in struct field", "struct {\n\tM map[ID]int\n}"},
+		{"chan of map key", "chan map[ID]int"}, {"func returning map with the key", "func() map[ID]int"},
+		{"qualified, package not imported", "map[missing.ID]int"},
+	}
+	for _, tp := range typedPlugins() {
+		for _, q := range positions {
+			fn := prefixes[tp.name] + "Bad"
+			at := tp.arg(q.typ)
+			if tp.name == "keys" {
+				at = q.typ // the map itself is the interesting argument
+			}
+			params, body := tp.call(fn)
+			decls := "type N struct {\n\tA int\n\tF map[ID]string\n}\n\ntype NM map[ID]int\n\n"
+			src := "package PKGDIR\n\n// ID is not declared anywhere (misspelt type name).\n\n" + decls + "func Use(" + params(at) + ") {\n\t" + body + "\n}\n"
+			tag := ""
+			if q.typ == "*N" || q.typ == "NM" {
+				tag = "unresolved-inside-named-type"
+			}
+			add(caseT{Family: "unresolved", Plugin: tp.name, What: "undeclared type as " + q.name + ": " + strings.ReplaceAll(strings.ReplaceAll(at, "\n", " "), "\t", ""),
+				Call: fn, Names: []string{fn, "ID"}, UserBad: true, Tag: tag}, map[string]string{"u.go": src})
+		}
+	}
+	// package-level variables and the multi-pass flow around them
+	for i, body := range []string{
+		"var index map[ID]int\n\nfunc Use() int { return len(deriveKeys(index)) }\n",
+		"var index map[ID]int\n\nfunc Use() int { return len(deriveSort(deriveKeys(index))) }\n",
+		"var index map[ID]int\n\nvar good map[string]int\n\nfunc Use() int { return len(deriveKeys(index)) + len(deriveSort(deriveKeysGood(good))) }\n",
+		"var a, b *map[ID][]int\n\nfunc Use() bool { return deriveEqual(a, b) }\n",
+		"var a []map[ID]int\n\nfunc Use() uint64 { return deriveHash(a) }\n",
+		"type T struct {\n\tM map[ID]int\n}\n\nfunc Use(a, b *T) bool { return deriveEqual(a, b) }\n",
+	} {
+		tag := ""
+		if strings.HasPrefix(body, "type T struct") {
+			tag = "unresolved-inside-named-type"
+		}
+		add(caseT{Family: "unresolved", What: fmt.Sprintf("package-level variable / flow %d", i), Call: "deriveKeys",
+			Names: []string{"deriveKeys", "deriveSort", "deriveEqual", "deriveHash", "ID"}, UserBad: true, Tag: tag},
+			map[string]string{"u.go": "package PKGDIR\n\n" + body})
+	}
+}
+
+// ---------------------------------------------------------------- families: blankfields, selfpointer, nilargs
+
+func pluginByName(name string) typedPlugin {
+	for _, t := range typedPlugins() {
+		if t.name == name {
+			return t
+		}
+	}
+	panic("no plugin " + name)
+}
+
+func genBlankFields(prefixes map[string]string) {
+	shapes := []struct{ what, decls, typ string }{
+		{"unnamed struct with one blank field, by value", "", "struct{ _ []int }"},
+		{"unnamed struct with one blank field, by pointer", "", "*struct{ _ []int }"},
+		{"unnamed struct with two blank fields", "", "struct {\n\t_ int\n\t_ string\n}"},
+		{"unnamed struct with a blank and a normal field", "", "struct {\n\t_ []int\n\tA string\n}"},
+		{"named struct with one blank field, by value", "type N struct{ _ []int }\n\n", "N"},
+		{"named struct with one blank field, by pointer", "type N struct{ _ []int }\n\n", "*N"},
+		{"named struct with blank and normal fields, by pointer", "type N struct {\n\t_ []int\n\tA map[string]int\n\t_ *N\n}\n\n", "*N"},
+		{"slice of unnamed blank-field structs", "", "[]struct{ _ []int }"},
+		{"field of blank-field struct type", "type N struct {\n\tIn struct{ _ []int }\n\tP *struct{ _ int }\n}\n\n", "*N"},
+		{"empty struct", "", "struct{}"},
+	}
+	for _, pl := range []string{"equal", "compare", "hash", "gostring", "deepcopy", "clone"} {
+		tp := pluginByName(pl)
+		for _, sh := range shapes {
+			fn := prefixes[pl] + "Blank"
+			params, body := tp.call(fn)
+			src := "package PKGDIR\n\n" + sh.decls + "func Use(" + params(sh.typ) + ") {\n\t" + body + "\n}\n"
+			add(caseT{Family: "blankfields", Plugin: pl, What: sh.what, Call: fn, Names: []string{fn, "struct", "N"}, Unsupp: true},
+				map[string]string{"u.go": src})
+		}
+	}
+}
+
+func genSelfPointer(prefixes map[string]string) {
+	shapes := []struct{ what, decls, typ string }{
+		{"type P *P", "type P *P\n\n", "P"},
+		{"type P *P, by pointer", "type P *P\n\n", "*P"},
+		{"type Q **Q", "type Q **Q\n\n", "Q"},
+		{"type R struct{ N *R2 }; type R2 *R", "type R struct{ N *R2 }\n\ntype R2 *R\n\n", "*R"},
+		{"type R2 *R (through the struct)", "type R struct{ N *R2 }\n\ntype R2 *R\n\n", "R2"},
+		{"type S []S", "type S []S\n\n", "S"},
+		{"type M map[string]M", "type M map[string]M\n\n", "M"},
+		{"type P *P as a struct field", "type P *P\n\ntype W struct {\n\tA int\n\tF P\n}\n\n", "*W"},
+		{"type A [2]*A", "type A [2]*A\n\n", "A"},
+	}
+	for _, pl := range []string{"equal", "compare", "hash", "clone", "deepcopy", "gostring"} {
+		tp := pluginByName(pl)
+		for _, sh := range shapes {
+			fn := prefixes[pl] + "Self"
+			params, body := tp.call(fn)
+			src := "package PKGDIR\n\n" + sh.decls + "func Use(" + params(sh.typ) + ") {\n\t" + body + "\n}\n"
+			add(caseT{Family: "selfpointer", Plugin: pl, What: sh.what, Call: fn, Names: []string{fn, "P", "Q", "R", "R2", "S", "M", "W", "A"}, Unsupp: true},
+				map[string]string{"u.go": src})
+		}
+	}
+}
+
+func genNilArgs(prefixes map[string]string) {
+	table := []struct {
+		plugin, params string
+		args           []string
+	}{
+		{"equal", "a, b *T", []string{"a", "b"}}, {"compare", "a, b *T", []string{"a", "b"}}, {"hash", "a *T", []string{"a"}},
+		{"deepcopy", "a, b *T", []string{"a", "b"}}, {"clone", "a *T", []string{"a"}}, {"gostring", "a *T", []string{"a"}},
+		{"keys", "a map[string]*T", []string{"a"}}, {"sort", "a []string", []string{"a"}}, {"set", "a []int", []string{"a"}},
+		{"min", "a []*T", []string{"a", "a[0]"}}, {"max", "a []*T", []string{"a", "a[0]"}}, {"contains", "a []*T", []string{"a", "a[0]"}},
+		{"intersect", "a, b []int", []string{"a", "b"}}, {"union", "a, b []int", []string{"a", "b"}}, {"unique", "a []*T", []string{"a"}},
+		{"min", "a []int", []string{"a", "a[0]"}}, {"contains", "a []string", []string{"a", "a[0]"}}, {"equal", "a, b []int", []string{"a", "b"}},
+		{"equal", "a, b map[string]int", []string{"a", "b"}}, {"compare", "a, b []*T", []string{"a", "b"}},
+	}
+	for _, row := range table {
+		fn := prefixes[row.plugin] + "Nil"
+		emit := func(what string, args []string) {
+			src := "package PKGDIR\n\ntype T struct {\n\tA int\n\tB []string\n}\n\nfunc Use(" + row.params + ") {\n\t" + fn + "(" + strings.Join(args, ", ") + ")\n}\n"
+			add(caseT{Family: "nilargs", Plugin: row.plugin, What: what + " (" + row.params + ")", Call: fn, Names: []string{fn, "nil"}, Unsupp: true},
+				map[string]string{"u.go": src})
+		}
+		all := make([]string, len(row.args))
+		for i := range all {
+			all[i] = "nil"
+		}
+		emit("nothing but untyped nil", all)
+		if len(row.args) > 1 {
+			for i := range row.args {
+				a := append([]string{}, row.args...)
+				a[i] = "nil"
+				emit(fmt.Sprintf("untyped nil as argument %d", i), a)
+			}
+		}
+		emit("one more argument, untyped nil", append(append([]string{}, row.args...), "nil"))
+	}
+}
+
 // ---------------------------------------------------------------- family: nonascii
 
 func genNonASCII(prefixes map[string]string) {
@@ -723,6 +885,10 @@ func main() {
 	must(os.WriteFile(filepath.Join(*out, "go.mod"), []byte("module bad\n\ngo 1.24\n"), 0o644))
 	genBroken()
 	genAliasClash()
+	genUnresolved(prefixes)
+	genBlankFields(prefixes)
+	genSelfPointer(prefixes)
+	genNilArgs(prefixes)
 	genNonASCII(prefixes)
 	genImportedTwin(prefixes)
 	genTwins(prefixes)
